@@ -42,6 +42,7 @@ type Case struct {
 	Args []json.RawMessage `json:"args"`
 	Want string            `json:"want"`
 	// schemas
+	Idx   int               `json:"idx"`
 	NVars int               `json:"nvars"`
 	Dom   [][]Range         `json:"dom"`
 	Guard []json.RawMessage `json:"guard"`
@@ -87,7 +88,7 @@ type Outcome struct {
 	Cls    string  // "finite" when both sides are finite, else the class of the offending side
 	Diff   float64 // |lhs - rhs|
 	Scale  float64
-	EvalE  float64 // error bound of the evaluation itself (added to the tolerance)
+	EvalE  float64 // error bound of the evaluation itself (added to the tolerance); informational copy
 	L, Rv  float64
 	Calls  []LibCall
 	Weak   bool // evaluator bound exceeds K*u*scale: the comparison is insensitive at this point
@@ -132,13 +133,14 @@ func evalEq(cc *compiled, K int64, x []*big.Float) (Outcome, error) {
 	l := env.Eval(cc.lhs)
 	r := env.Eval(cc.rhs)
 	s := env.Eval(cc.scale)
-	slack := 0.0
+	slack := bf()
 	if cc.slack != nil {
 		sv := env.Eval(cc.slack)
 		if sv.Cls != cFin {
 			return Outcome{}, fmt.Errorf("slack term is not finite")
 		}
-		slack = absF(sv.F) + sv.E
+		slack.Abs(sv.F)
+		slack.Add(slack, sv.Err())
 	}
 	if env.Err != nil {
 		return Outcome{}, env.Err
@@ -163,27 +165,37 @@ func evalEq(cc *compiled, K int64, x []*big.Float) (Outcome, error) {
 	}
 	o.Cls = "finite"
 	d := bf().Sub(l.F, r.F)
+	d.Abs(d)
 	o.Diff = absF(d)
-	o.Scale = absF(s.F)
-	o.EvalE = l.E + r.E + slack
-	if math.IsInf(o.EvalE, 1) || math.IsNaN(o.EvalE) {
+	sc := bf().Abs(s.F)
+	o.Scale = absF(sc)
+	ee := bf().Add(l.Err(), r.Err())
+	ee.Add(ee, slack)
+	o.EvalE = absF(ee)
+	if ee.IsInf() || math.IsNaN(l.Rel+l.Abs+r.Rel+r.Abs) || math.IsInf(l.Rel+l.Abs+r.Rel+r.Abs, 0) {
 		o.Weak = true
 		return o, nil
 	}
-	if o.Scale == 0 {
+	ex := bf().Sub(d, ee) // excess over the evaluator's own bound
+	if sc.Sign() == 0 {
 		// exact zero expected: any deviation beyond the evaluator's bound is a full failure
-		if o.Diff > o.EvalE {
+		if ex.Sign() > 0 {
 			o.R = rCap
 		}
 		return o, nil
 	}
-	unit := uF64 * o.Scale
-	if o.EvalE > float64(K)*unit && K > 0 {
+	// results in the subnormal range cannot be relatively accurate: the unit never drops below u * 2^-1022
+	floor := bf().SetMantExp(bfI(1), -1022)
+	if sc.Cmp(floor) < 0 {
+		sc = floor
+	}
+	unit := bf().Mul(sc, bfF(uF64))
+	if K > 0 && ee.Cmp(bf().Mul(unit, bfI(K))) > 0 {
 		o.Weak = true
 	}
-	ex := o.Diff - o.EvalE
-	if ex > 0 {
-		q := math.Ceil(ex / unit)
+	if ex.Sign() > 0 {
+		q, _ := bf().Quo(ex, unit).Float64()
+		q = math.Ceil(q)
 		if q > rCap || math.IsInf(q, 0) {
 			q = rCap
 		}
@@ -231,7 +243,7 @@ func replay(casesPath, resultsPath string) {
 	defer out.Close()
 	wd := vh.NewWatchdog(120*time.Second, out, vh.M{"engine": "special"})
 	stats := map[string]*famStat{}
-	ncases, nclass, nskipped := 0, 0, 0
+	ncases, nclass, nskipped, nguard := 0, 0, 0, 0
 	brs := map[string]int{}
 	err := vh.EachLine(casesPath, func(line []byte) error {
 		var c Case
@@ -249,6 +261,24 @@ func replay(casesPath, resultsPath string) {
 			if err != nil {
 				return fmt.Errorf("case %s %s: %v", c.Fam, at, err)
 			}
+			if c.Br == "grid" {
+				// regular grid of the thorough tier: points where a guard of the schema fails are skipped
+				skip := false
+				for _, g := range cc.guard {
+					genv := &Env{}
+					v := genv.Eval(g)
+					if genv.Err != nil {
+						return fmt.Errorf("case %s %s: guard: %v", c.Fam, at, genv.Err)
+					}
+					if v.Cls != cFin || v.F.Sign() <= 0 {
+						skip = true
+					}
+				}
+				if skip {
+					nguard++
+					return nil
+				}
+			}
 			o, err := evalEq(cc, c.K, nil)
 			if err != nil {
 				return fmt.Errorf("case %s %s: %v", c.Fam, at, err)
@@ -263,6 +293,7 @@ func replay(casesPath, resultsPath string) {
 			st.N++
 			if o.Weak {
 				st.Weak++
+				out.Put(vh.M{"kind": "weak", "fam": c.Fam, "at": at, "evaluator_bound": fstr(o.EvalE), "scale": fstr(o.Scale), "K": c.K})
 			}
 			if o.Cls == "finite" && o.R > st.MaxR {
 				st.MaxR = o.R
@@ -273,11 +304,11 @@ func replay(casesPath, resultsPath string) {
 				if o.Cls == "panic" {
 					what = "panic"
 				}
-				vh.Mismatch(out, vh.M{"engine": "special", "fam": c.Fam, "what": what, "at": at},
-					vh.M{"mode": "case", "case": raw, "reason": o.Reason, "calls": o.Calls})
+				vh.Mismatch(out, vh.M{"engine": "special", "fam": c.Fam, "what": what},
+					vh.M{"mode": "case", "at": at, "case": raw, "reason": o.Reason, "calls": o.Calls})
 			} else if o.R > c.K {
-				vh.Mismatch(out, vh.M{"engine": "special", "fam": c.Fam, "what": "residual", "at": at},
-					vh.M{"mode": "case", "case": raw, "r_units": o.R, "K": c.K, "diff": o.Diff, "scale": o.Scale,
+				vh.Mismatch(out, vh.M{"engine": "special", "fam": c.Fam, "what": "residual"},
+					vh.M{"mode": "case", "at": at, "case": raw, "r_units": o.R, "K": c.K, "diff": o.Diff, "scale": o.Scale,
 						"evaluator_bound": o.EvalE, "lhs": fstr(o.L), "rhs": fstr(o.Rv), "calls": o.Calls})
 			}
 		case "class":
@@ -298,8 +329,9 @@ func replay(casesPath, resultsPath string) {
 			nclass++
 			got := env.Calls[len(env.Calls)-1]
 			if !classOK(c.Want, got.Cls) {
-				vh.Mismatch(out, vh.M{"engine": "special", "fam": c.Fam, "what": "class", "fn": c.Fn, "at": at},
-					vh.M{"mode": "case", "case": raw, "want": c.Want, "got": got.Cls, "calls": env.Calls})
+				at = fmt.Sprintf("%s(%s)", c.Fn, strings.Join(got.SArg, ","))
+				vh.Mismatch(out, vh.M{"engine": "special", "fam": c.Fam, "what": "class", "fn": c.Fn},
+					vh.M{"mode": "case", "at": at, "case": raw, "want": c.Want, "got": got.Cls, "calls": env.Calls})
 			}
 		default:
 			nskipped++
@@ -318,7 +350,8 @@ func replay(casesPath, resultsPath string) {
 	for _, k := range names {
 		fs[k] = stats[k]
 	}
-	vh.Summary(out, vh.M{"cases": ncases, "class_cases": nclass, "lib_calls": libCalls, "families": fs, "branches": brs})
+	vh.Summary(out, vh.M{"cases": ncases, "class_cases": nclass, "lib_calls": libCalls, "families": fs, "branches": brs,
+		"grid_points_outside_guard": nguard, "schemas_skipped": nskipped})
 }
 
 // ---------------------------------------------------------------- recorder
@@ -384,7 +417,7 @@ func record(schemasPath, tracePath, resultsPath string, n int) {
 			vh.Fatal("record:", s.c.Fam, ptString(pt), err)
 		}
 		events++
-		trace.Put(vh.M{"e": "id", "fam": s.c.Fam, "args": pt, "cls": o.Cls, "r": o.R})
+		trace.Put(vh.M{"e": "id", "idx": s.c.Idx, "fam": s.c.Fam, "args": pt, "cls": o.Cls, "r": o.R})
 		out.Put(vh.M{"kind": "event", "n": events, "fam": s.c.Fam, "args": pt, "cls": o.Cls, "r": o.R, "K": s.c.K,
 			"diff": o.Diff, "scale": o.Scale, "evaluator_bound": o.EvalE, "weak": o.Weak, "reason": o.Reason, "calls": o.Calls})
 		return true
